@@ -200,6 +200,54 @@ def _timed_transport(env, world):
     return cls(world)
 
 
+def install_trace(env, world, ecu, default_plan):
+    """wrap `ecu._request` (on the instance): records call / done events and what the caller saw; the code under test is
+    the original bound method"""
+    orig = ecu._request
+
+    async def traced(request, config=None):
+        name = world.task()
+        k = world.count.setdefault(name, 0)
+        world.count[name] = k + 1
+        plan = world.queues[name].pop(0) if world.queues.get(name) else default_plan(request)
+        tags = config.tags if config is not None else None
+        sc = getattr(world, "scanner", None)
+        o = {"task": name, "k": k, "ecu": ecu, "script": [list(e) for e in plan["script"]], "wscript": dict(plan.get("wscript", {})),
+             "writes": [], "reply": None, "implicit": ecu.implicit_logging, "analyze": isinstance(tags, list) and "ANALYZE" in tags,
+             "req_pdu": request.pdu.hex(), "req_cls": type(request).__name__, "t0": time.time(),
+             "pre": [ecu.state.session, ecu.state.security_access_level], "t_first_write": None, "t_last_read": None,
+             "scanner_flag": getattr(sc, "_implicit_logging", None)}
+        world.calls[(name, k)] = o
+        world.cur[name] = o
+        world.events.append(("call", name, k))
+        if hasattr(world, "flag_events"):
+            world.flag_events.append("r")
+        try:
+            resp = await orig(request, config)
+            o.update(out="ret", resp_cls=type(resp).__name__)
+            return resp
+        except asyncio.CancelledError:
+            o.update(out="cancel")
+            raise
+        except env["RespExc"] as e:
+            o.update(out="rexc", exc=repr(e), resp_cls=type(e.response).__name__)
+            raise
+        except Exception as e:
+            o.update(out="exc", exc=repr(e))
+            raise
+        finally:
+            o.update(t1=time.time(), implicit_at_end=ecu.implicit_logging, scanner_flag_end=getattr(sc, "_implicit_logging", None),
+                     post=[ecu.state.session, ecu.state.security_access_level])
+            world.events.append(("done", name, k))
+            if hasattr(world, "api_order") and ecu.implicit_logging and ecu.db_handler is not None:
+                world.api_order.append("res")
+            if world.cur.get(name) is o:
+                del world.cur[name]
+            del o["ecu"]
+
+    ecu._request = traced
+
+
 async def _multi_body(env, case, path, out):
     H, E, S = env["H"], env["E"], env["S"]
     K = env["K"]
@@ -218,43 +266,7 @@ async def _multi_body(env, case, path, out):
     tr = _timed_transport(env, world)
     ecu = E.ECU(tr, timeout=case.get("timeout", 1.0), max_retry=0)
     ecu.db_handler = db
-    orig = ecu._request
-
-    async def traced(request, config=None):
-        name = world.task()
-        k = world.count[name]
-        world.count[name] = k + 1
-        plan = world.queues[name].pop(0) if world.queues[name] else case["tp"]["default"]
-        tags = config.tags if config is not None else None
-        o = {"task": name, "k": k, "ecu": ecu, "script": [list(e) for e in plan["script"]], "wscript": dict(plan.get("wscript", {})),
-             "writes": [], "reply": None, "implicit": ecu.implicit_logging, "analyze": isinstance(tags, list) and "ANALYZE" in tags,
-             "req_pdu": request.pdu.hex(), "req_cls": type(request).__name__, "t0": time.time(),
-             "pre": [ecu.state.session, ecu.state.security_access_level], "t_first_write": None, "t_last_read": None}
-        world.calls[(name, k)] = o
-        world.cur[name] = o
-        world.events.append(("call", name, k))
-        try:
-            resp = await orig(request, config)
-            o.update(out="ret", resp_cls=type(resp).__name__)
-            return resp
-        except asyncio.CancelledError:
-            o.update(out="cancel")
-            raise
-        except env["RespExc"] as e:
-            o.update(out="rexc", exc=repr(e), resp_cls=type(e.response).__name__)
-            raise
-        except Exception as e:
-            o.update(out="exc", exc=repr(e))
-            raise
-        finally:
-            o.update(t1=time.time(), implicit_at_end=ecu.implicit_logging,
-                     post=[ecu.state.session, ecu.state.security_access_level])
-            world.events.append(("done", name, k))
-            if world.cur.get(name) is o:
-                del world.cur[name]
-            del o["ecu"]
-
-    ecu._request = traced
+    install_trace(env, world, ecu, lambda request: case["tp"]["default"])
 
     async def scanner(name, calls):
         try:
@@ -1006,20 +1018,357 @@ def gen_tables(ctx):
 
 
 # ----------------------------------------------------------------------------------------------------------------------
+# family `life`: a real UDSScanner through entry_point()
+
+LIFE_URL = "c11-life://ecu"
+
+
+def _life_env(env):
+    if "Life" in env:
+        return env["Life"]
+    import gallia.command.base as CB
+    import gallia.command.uds as U
+    import gallia.plugins.plugin as plugin
+    from gallia.command import UDSScanner
+    from gallia.command.uds import UDSScannerConfig
+
+    E, K = env["E"], env["K"]
+    st = {"world": None, "case": None, "env": env}
+    replies = {}
+    for label, req, reps in K:
+        replies.setdefault(req.pdu.hex(), reps[0].hex())
+    replies.update({"3e00": "7e00", "22f190": "62f19057414c4c", "1101": "5101", "1001": "5001"})
+
+    def default_plan(request):
+        h = request.pdu.hex()
+        r = replies.get(h)
+        if r is None:
+            r = bytes([0x7F, request.pdu[0], 0x11]).hex()
+        return {"script": [["r", r, 0]], "wscript": {}}
+
+    class LifeECU(E.ECU):
+        def __init__(self, *a, **k):
+            super().__init__(*a, **k)
+            st["world"].flag_events.append("e")
+            install_trace(env, st["world"], self, default_plan)
+
+        async def properties(self, fresh=False, config=None):
+            if st["case"].get("prop_reads", True):
+                await self.read_vin(config=config)     # an OEM implementation reads identifiers here
+            return E.ECUProperties()
+
+    class LifeLoader:
+        @classmethod
+        async def connect(cls, target, timeout=None):
+            return _timed_transport(env, st["world"])
+
+    class TLife(UDSScanner):
+        CONFIG_TYPE = UDSScannerConfig
+
+        def __init__(self, config):
+            super().__init__(config)
+            st["world"].scanner = self
+            for v in st["case"].get("init", []):
+                self.implicit_logging = v
+                st["world"].flag_events.append("1" if v else "0")
+
+        async def _steps(self, steps):
+            w = st["world"]
+            for step in steps:
+                if step[0] == "set":
+                    self.implicit_logging = step[1]
+                    w.flag_events.append("1" if step[1] else "0")
+                elif step[0] == "req":
+                    _, req, _ = K[step[1]]
+                    tags = step[2]
+                    cfg = None if tags == "nocfg" else env["Cfg"](tags=tags, max_retry=0)
+                    try:
+                        await self.ecu.request(req, cfg)
+                    except (ConnectionError, env["UDSExc"]):
+                        pass
+                elif step[0] == "sleep":
+                    await asyncio.sleep(step[1])
+                elif step[0] == "st":
+                    try:
+                        await self.db_handler.insert_session_transition(step[1], [1, step[1]])
+                        w.transitions.append(step[1])
+                        w.api_order.append("st")
+                    except Exception as e:
+                        w.notes.append("session_transition: " + repr(e))
+                elif step[0] == "par":
+                    b = asyncio.create_task(self._steps(step[2]), name="B")
+                    await self._steps(step[1])
+                    await b
+                else:
+                    raise ValueError(step)
+
+        async def main(self):
+            await self._steps(st["case"]["main"])
+
+    orig_apply = UDSScanner._apply_implicit_logging_setting
+
+    def traced_apply(self):
+        if st["world"] is not None:
+            st["world"].flag_events.append("a")
+        return orig_apply(self)
+
+    TLife._apply_implicit_logging_setting = traced_apply
+    orig_open = CB.BaseCommand._db_insert_run_meta
+
+    async def traced_open(self):
+        await orig_open(self)
+        if st["world"] is not None and self.db_handler is not None:
+            st["world"].flag_events.append("o")
+
+    TLife._db_insert_run_meta = traced_open
+    env["Life"] = {"st": st, "TLife": TLife, "LifeECU": LifeECU, "LifeLoader": LifeLoader, "Cfg": UDSScannerConfig, "U": U,
+                   "plugin": plugin}
+    return env["Life"]
+
+
+def run_life(case):
+    base = _base()
+    env = base._env()
+    L = _life_env(env)
+    st, U, plugin = L["st"], L["U"], L["plugin"]
+    rec_e, rec_h, rec_u = base._Rec(), base._Rec(), base._Rec()
+    env["E"].logger = rec_e
+    env["H"].logger = rec_h
+    world = _World()
+    world.flag_events = []
+    world.transitions = []
+    world.api_order = []
+    world.notes = []
+    world.scanner = None
+    st["world"], st["case"] = world, case
+    end = "ok"
+    o_load_ecu, o_load_tr, o_ulog = U.load_ecu, plugin.load_transport, U.logger
+    U.load_ecu = lambda oem: L["LifeECU"]
+    plugin.load_transport = lambda target: L["LifeLoader"]
+    U.logger = rec_u
+    orig_create = asyncio.create_task
+
+    def create(coro, **kw):
+        if getattr(coro, "__name__", "") == "_tester_present_worker":
+            kw["name"] = "TP"
+        return orig_create(coro, **kw)
+
+    asyncio.create_task = create
+    cmd = None
+    tables = None
+    rows = []
+    with tempfile.TemporaryDirectory(prefix="c11l-", dir=os.environ.get("C11_TMP") or None) as d:
+        path = Path(d) / "scan.sqlite"
+        loop = VLoop()
+        loop.horizon = 3600
+        asyncio.set_event_loop(loop)
+        try:
+            cfg = L["Cfg"](target=LIFE_URL, dumpcap=False, db=path, ping=case["ping"], ecu_reset=case.get("ecu_reset"),
+                           tester_present=case["tp"], tester_present_interval=case.get("tp_interval", 0.5),
+                           properties=case["properties"], timeout=0.5, max_retries=0)
+            cmd = L["TLife"](cfg)
+
+            async def go():
+                asyncio.current_task().set_name("A")
+                return await cmd.entry_point()
+
+            try:
+                rc = loop.run_until_complete(go())
+                end = "ok" if rc == 0 else f"exit:{rc}"
+            except asyncio.CancelledError:
+                end = "cancelled"
+            except Stall as e:
+                end = "stall: " + str(e)
+            except BaseException as e:
+                end = "error: " + repr(e)
+        finally:
+            asyncio.create_task = orig_create
+            U.load_ecu, plugin.load_transport, U.logger = o_load_ecu, o_load_tr, o_ulog
+            end = _stop_loop(loop, cmd.db_handler if cmd is not None else None, end)
+            st["world"] = None
+        if path.exists():
+            rows = _read_rows(path)
+            tables = _read_tables(path)
+    calls = []
+    for (name, k), o in world.calls.items():
+        o = dict(o)
+        o.pop("ecu", None)
+        o["reply"] = o["reply"].hex() if o["reply"] is not None else None
+        calls.append(o)
+    warnings = [m for (lvl, m) in rec_e.msgs + rec_h.msgs + rec_u.msgs]
+    return {"events": [list(e) for e in world.events], "calls": calls, "rows": rows, "warnings": warnings, "end": end,
+            "injected": 0, "flag_events": "".join(world.flag_events), "api_order": world.api_order, "tables": tables, "transitions": world.transitions,
+            "notes": world.notes,
+            "obs": [{"out": o.get("out", "none"), "req_cls": o["req_cls"], "resp_cls": o.get("resp_cls", "none")} for o in calls]}
+
+
+def judge_life(res, case):
+    if res["end"] != "ok":
+        return ("life:run-ended:" + res["end"].split(":")[0], "run ended with " + res["end"])
+    by = {(o["task"], o["k"]): o for o in res["calls"]}
+    done = [(t, k) for (what, t, k) in [tuple(e) for e in res["events"]] if what == "done"]
+    # what the user of the scanner asked for: `scanner.implicit_logging` at the time of the request
+    n_off = [c for c in done if by[c]["scanner_flag"] is False]
+    rec_off = [c for c in n_off if by[c].get("implicit_at_end", True)]
+    if rec_off:
+        c = rec_off[0]
+        n_rows = len(res["rows"])
+        return ("life:recorded-while-logging-off", f"{len(rec_off)} request(s) were sent through an ECU object with implicit logging on although "
+                f"the scanner had switched implicit logging off (first: {by[c]['req_pdu']} of task {c[0]}); {n_rows} scan_result row(s) in the database")
+    on_not = [c for c in done if by[c]["scanner_flag"] is True and not by[c].get("implicit_at_end", True)]
+    if on_not:
+        c = on_not[0]
+        return ("life:not-recorded-while-logging-on", f"request {by[c]['req_pdu']} was not recorded although the scanner had implicit logging on")
+    j = judge_multi(dict(res, end="ok"), case)
+    if j is not None:
+        return ("life:" + j[0].split(":", 1)[1], j[1])
+    t = res["tables"]
+    if t is None:
+        return ("life:no-database", "no database file")
+    if t["fk_violations"]:
+        return ("life:foreign-key", f"PRAGMA foreign_key_check: {t['fk_violations'][:3]}")
+    if len(t["rm"]) != 1 or len(t["sr"]) != 1 or t["sr"][0][2] != t["rm"][0] or t["sr"][0][1] is None:
+        return ("life:run-rows", f"run_meta {t['rm']} / scan_run {t['sr']}: expected one of each, linked")
+    if any(r[1] != t["sr"][0][0] for r in t["res"]) or any(r[0] != t["sr"][0][0] for r in t["st"]):
+        return ("life:wrong-run", "a scan_result / session_transition row does not reference the scan run of this run")
+    if [r[1] for r in t["st"]] != res["transitions"]:
+        return ("life:session-transitions", f"session_transition rows {t['st']} differ from the accepted calls {res['transitions']}")
+    return None
+
+
+def compare_life(ctx, pending):
+    if not pending:
+        return
+    compare_multi(ctx, pending)
+    lines = []
+    for case, res in pending:
+        lines.append("lflag " + (res["flag_events"] or "-"))
+        # the tables: lifecycle order of the API calls as observed
+        lines += ["treset", "top runMeta", "top scanRun 0"]
+        if case["properties"]:
+            lines.append("top propertiesPre")
+        n_st = 0
+        for kind in res["api_order"]:
+            if kind == "res":
+                lines.append("top scanResult 0")
+            else:
+                lines.append(f"top sessionTransition {res['transitions'][n_st]}")
+                n_st += 1
+        if case["properties"]:
+            lines.append("top completeScanRun")
+        lines.append("top completeRunMeta")
+        lines.append("trun R*,W*")
+    out = ctx.lean(lines)
+    i = 0
+    for case, res in pending:
+        by = {(o["task"], o["k"]): o for o in res["calls"]}
+        calls = [by[(t, k)] for (what, t, k) in [tuple(e) for e in res["events"]] if what == "call"]
+        got = ",".join(f"{int(bool(o['implicit']))}{int(bool(o['scanner_flag']))}" for o in calls) or "-"
+        if out[i] != got:
+            ctx.disagree("c11:life:model-vs-code:switch", "ECU.implicit_logging / scanner switch at the requests differ from the model of "
+                         "the setter and _apply_implicit_logging_setting", case, impl={"events": res["flag_events"], "flags": got},
+                         model=out[i], spec_violated=False, site="Model/DbLog.lean (Flag.step) vs command/uds.py")
+        n = 3 + (2 if case["properties"] else 0) + len(res["api_order"]) + 2
+        line = out[i + n]
+        t = dict(res["tables"])
+        t["res"] = [[r[0], r[1], 0] for r in t["res"]]
+        t["ad"] = [[a, 0] for a, _ in t["ad"]]
+        mt = line.partition("|performed=")[0]
+        if mt != _tables_text(t):
+            ctx.disagree("c11:life:model-vs-code:tables", "tables after the run differ from the model", case, impl=_tables_text(t),
+                         model=mt, spec_violated=False, site="Model/DbTables.lean vs the lifecycle")
+        i += n + 1
+
+
+def gen_life(ctx, K):
+    rng = ctx.rng
+    kinds = _distinct_kinds(K)
+    cases = []
+
+    def main_steps(n, toggles, with_par):
+        steps = []
+        pool = rng.sample(kinds, min(len(kinds), n + 4))
+        for i in range(n):
+            steps.append(["req", pool[i], rng.choice([None, None, ["ANALYZE"], "nocfg", ["x", "ANALYZE"]])])
+            r = rng.random()
+            if r < toggles:
+                steps.append(["set", rng.random() < 0.5])
+            elif r < toggles + 0.2:
+                steps.append(["sleep", rng.choice([0.3, 0.6, 1.2])])
+            elif r < toggles + 0.3:
+                steps.append(["st", rng.randint(1, 0x7F)])
+        if with_par:
+            a = [["req", pool[n], None], ["req", pool[n + 1], ["ANALYZE"]]]
+            b = [["req", pool[n + 2], None], ["sleep", 0.1], ["req", pool[n + 3], None]]
+            steps.insert(rng.randrange(len(steps) + 1), ["par", a, b])
+        return steps
+
+    # the switch set in the constructor x every combination of the setup options (exhaustive)
+    for init in ([], [False], [True], [False, True], [True, False]):
+        for ping in (False, True):
+            for props in (False, True):
+                for tp in (False, True):
+                    for reset in (None, 1):
+                        if reset and (ping and tp) and init not in ([], [False]):
+                            continue
+                        cases.append(("life-setup-matrix", {"kind": "life", "init": init, "ping": ping, "properties": props, "tp": tp,
+                                                            "ecu_reset": reset, "main": main_steps(2, 0.0, False)}))
+    # toggles in main(), ANALYZE tags, the tester-present task in between, two coroutines, session transitions
+    for _ in range(ctx.pick(20, 150)):
+        cases.append(("life-main-toggles", {"kind": "life", "init": rng.choice([[], [], [False], [True]]), "ping": rng.random() < 0.5,
+                                            "properties": rng.random() < 0.5, "tp": rng.random() < 0.7,
+                                            "tp_interval": rng.choice([0.25, 0.5]), "ecu_reset": rng.choice([None, None, 1]),
+                                            "main": main_steps(rng.randint(1, 6), 0.35, rng.random() < 0.4)}))
+    return cases
+
+
+# ----------------------------------------------------------------------------------------------------------------------
 
 
 def run_case(case):
-    return {"multi": run_multi, "tables": run_tables}[case["kind"]](case)
+    return {"multi": run_multi, "tables": run_tables, "life": run_life}[case["kind"]](case)
 
 
 def judge(res, case):
-    j = {"multi": judge_multi, "tables": judge_tables}[case["kind"]](res, case)
+    j = {"multi": judge_multi, "tables": judge_tables, "life": judge_life}[case["kind"]](res, case)
     return None if j is None else (j[0], j[1], None)
+
+
+def shrink_life(case, key):
+    """fixed order: shorter main, then each setup option off"""
+    cur = case
+
+    def fails(c):
+        r = run_life(c)
+        j = judge_life(r, c)
+        return j is not None and j[0] == key
+
+    for cand in ([dict(cur, main=[]), dict(cur, main=cur["main"][:1])] if cur["main"] else []):
+        if fails(cand):
+            cur = cand
+            break
+    for k, v in (("tp", False), ("ping", False), ("ecu_reset", None), ("properties", False)):
+        if cur.get(k) != v:
+            cand = dict(cur, **{k: v})
+            if fails(cand):
+                cur = cand
+    if len(cur.get("init", [])) > 1:
+        cand = dict(cur, init=cur["init"][-1:])
+        if fails(cand):
+            cur = cand
+    return cur
 
 
 def evaluate(label, case):
     res = run_case(case)
     j = judge(res, case)
+    if j is not None and case["kind"] == "life":
+        small = shrink_life(case, j[0])
+        if small is not case:
+            res2 = run_case(small)
+            j2 = judge(res2, small)
+            if j2 is not None:
+                case, res, j = small, res2, j2
     if j is not None and case["kind"] == "multi":
         small = shrink_multi(case, j[0])
         if small is not case:
